@@ -27,6 +27,7 @@ CHECKS = {
     "C20": {"harnesses": [("harness.agents", "C20_FCN"), ("harness.agents", "C20_MarketShareFCN"),
                           ("harness.agents", "C20_MarketMaker"), ("harness.agents", "C20_Arbitrage")]},
     "C06": {"harnesses": [("harness.clock", "C06_ClockAndHistory")]},
+    "C07": {"harnesses": [("harness.repro", "C07_Reproducible")], "post": ("harness.repro", "post")},
     "C08": {"harnesses": [("harness.ophistory", "C08_OpHistory")]},
     "C03": {"harnesses": [("harness.matching", "C03_ClearingRound"), ("harness.matching", "C03_Continuous")]},
 }
@@ -43,5 +44,4 @@ META = {pid: {"level": _L, "note": _N} for pid in ["C%02d" % i for i in range(1,
 
 # properties not claimed (yet): kept current by hand
 NOT_APPLICABLE = {
-    "C07": "harness not built yet in this revision (planned: two-run comparison under nondeterministic global sources)",
 }
